@@ -402,8 +402,8 @@ def run_impl(cexe, cases):
     return rc, out, err, crashes
 
 
-REPAIRS = ["zerofix"]      # /repo commit 8e7b6f1 (was notes/fix_C17_1.diff)
-PROPOSED = ["gridfix"]     # notes/fix_C17_2.diff (F17b), not in the tree
+REPAIRS = ["zerofix", "gridfix"]      # /repo commits 8e7b6f1, d58ea84 (were notes/fix_C17_1.diff, fix_C17_2.diff)
+PROPOSED = []
 
 
 def is_sweep(c):
@@ -585,7 +585,7 @@ def check(ctx):
     cexe, mexe, proof_ok = build(ctx)
     cases = gen_cases(ctx)
     rc1, cout, cerr, crashes = run_impl(cexe, cases)
-    mo, me, table = run_model(ctx, mexe, cases, zerofix=True)     # the tree refuses zero dimensions (8e7b6f1)
+    mo, me, table = run_model(ctx, mexe, cases, zerofix=True, gridfix=True)     # the tree: 8e7b6f1, d58ea84
     cc, mc = vlib.split_cases(cout), vlib.split_cases(mo)
     by_head = {h: ls for (h, ls) in cc}
     mby_head = {h: ls for (h, ls) in mc}
@@ -611,18 +611,13 @@ def check(ctx):
         return out
     mm0 = mismatches_of(mby_head)
     mismatches, chosen = mm0, list(REPAIRS)
-    if mm0:
-        # (a) does the tree contain the proposed block-grid repair (notes/fix_C17_2.diff)?
-        # (b) would the model of the code before 8e7b6f1 (zero width accepted) agree?  -> regression
-        for trial in (REPAIRS + PROPOSED, PROPOSED, []):
+    if mm0:     # would the model with one repair dropped agree?  -> regression of that commit
+        for trial in (["zerofix"], ["gridfix"], []):
             mo1, _, t1 = run_model(ctx, mexe, cases, zerofix="zerofix" in trial, gridfix="gridfix" in trial)
             mm1 = mismatches_of({h: ls for (h, ls) in vlib.split_cases(mo1)})
             if len(mm1) < len(mismatches):
                 mismatches, chosen = mm1, list(trial)
-            if not mm1:
-                break
-    if chosen == REPAIRS + PROPOSED:
-        mm0 = mismatches           # the proposal has been applied to the tree: that model is the reference
+        run_model(ctx, mexe, cases, zerofix=True, gridfix=True)
     variant = ",".join(chosen) or "none"
     pybad = py_float_check(table)
     nops = sum(len(c) - 1 for c in cases)
@@ -703,10 +698,7 @@ def replay(ctx, path):
     lines = [l for l in body.split("\n") if l.strip()]
     cexe, mexe, _ = build(ctx)
     r, co, ce, cr = run_impl(cexe, [lines])
-    mo, me, _ = run_model(ctx, mexe, [lines], zerofix=True)
-    mo2, _, _ = run_model(ctx, mexe, [lines], zerofix=True, gridfix=True)
-    if vlib.split_cases(co) and vlib.split_cases(mo2) and comparable(vlib.split_cases(co)[0][1]) == comparable(vlib.split_cases(mo2)[0][1]):
-        mo = mo2
+    mo, me, _ = run_model(ctx, mexe, [lines], zerofix=True, gridfix=True)
     print("implementation:\n" + co + ce[-800:] + ("crash: %s\n" % (cr,) if cr else "") + "model:\n" + mo)
     cs = vlib.split_cases(co)
     es = oracle_case(lines, cs[0][1] if cs else [], cr.get(lines[0]) or cr.get("*"))
